@@ -50,7 +50,7 @@ def cases(chk):
             sid[0] += 1
             return sid[0]
         yield "preempt", {"work": [[fresh2() for _i in range(r.randint(1, 3))] for _t in range(nt)], "seed": r.randrange(1 << 30), "prob": r.choice([0.05, 0.2, 0.5]),
-                          "entry": r.choice(["top", "coder", "coder"]), "inbound": r.choice([0, 2, 3])}
+                          "entry": r.choice(["top", "coder", "coder"]), "inbound": r.choice([0, 2, 3]), "other_login": r.choice([0, 0, 2, 4])}
     # senders stalled inside their send while the connection is lost and a new login completes
     for _ in range(chk.scale(120, 3000)):
         nt = r.randint(1, 3)
@@ -76,7 +76,7 @@ def node_for(sid):
     return ProtocolTreeNode("iq", {"id": "s%d" % sid, "type": "get", "xmlns": "w:p"}, [ProtocolTreeNode("ping", data=b"x" * (sid % 7))])
 
 
-def execute(work, choose, preempt=None, entry="top", inbound=0):
+def execute(work, choose, preempt=None, entry="top", inbound=0, other_login=0):
     """run the work with real threads; returns (coop, bottom writes, locks of interest).  entry="coder": the threads call the coder layer's
     send directly, as YowStack.send does on a stack whose topmost layer is the coder (no layer lock above the encoder)"""
     del coop.LOCKS[:]
@@ -104,6 +104,20 @@ def execute(work, choose, preempt=None, entry="top", inbound=0):
                 coop.point()
                 bottom.receive(struct.pack(">I", len(body_))[1:] + body_)
         c.spawn(reader)
+    if other_login:
+        # another account's stack in the same process logs in meanwhile: its noise layer switches ITS segment layer's length prefix off for the
+        # raw prologue and on again (YowNoiseLayer.on_auth) — a property of that stack, not of this one
+        from yowsup.layers.noise.layer_noise_segments import YowNoiseSegmentsLayer
+        stack2, _t2, _b2, _L2 = concstack.build()
+
+        def other():
+            for _k in range(other_login):
+                coop.point()
+                stack2.setProp(YowNoiseSegmentsLayer.PROP_ENABLED, False)
+                coop.point()
+                coop.point()
+                stack2.setProp(YowNoiseSegmentsLayer.PROP_ENABLED, True)
+        c.spawn(other)
     err = None
     try:
         c.run(choose)
@@ -456,7 +470,7 @@ def run_case(chk, stream, case):
     if stream == "preempt":
         r = random.Random(case["seed"])
         c, writes, L, err = execute(case["work"], coop.chooser(r), preempt=(case["prob"], random.Random(case["seed"] ^ 0x5bd1e995)), entry=case.get("entry", "top"),
-                                    inbound=case.get("inbound", 0))
+                                    inbound=case.get("inbound", 0), other_login=case.get("other_login", 0))
         chk.hit("preempt:inbound=%d" % min(case.get("inbound", 0), 1))
         chk.hit("preempt:threads=%d" % len(case["work"]), "preempt:p=%s" % case["prob"])
         return check_run(chk, case, c, writes, L, err, "preempt")
